@@ -26,6 +26,27 @@ func appendCall(in Val, f func(dst, src []byte) []byte) Val {
 	if !bytes.Equal(dst[:len(dst0)], dst0) {
 		return L(I(3), S("dst content modified"))
 	}
+	// The result must be the caller's own: scribbling over the result of one call
+	// must not change the answer of the next (a result that points into a shared
+	// table or a reused buffer), and later calls must not change an earlier result.
+	keep := slices.Clone(out)
+	fresh := func() []byte {
+		if len(dst0) == 0 {
+			return nil // also exercises the dst == nil path
+		}
+		return slices.Clone(dst0)
+	}
+	r1 := f(fresh(), slices.Clone(src0))
+	for i := len(dst0); i < len(r1); i++ {
+		r1[i] ^= 0xff
+	}
+	r2 := f(fresh(), slices.Clone(src0))
+	if !bytes.Equal(r2, keep) {
+		return L(I(3), S("a result aliases shared state: after scribbling over one result the same call answers differently"))
+	}
+	if !bytes.Equal(out, keep) {
+		return L(I(3), S("an earlier result was changed by later calls"))
+	}
 	return vOk(B(out))
 }
 
@@ -140,9 +161,38 @@ var kCanon = register(&Kind{Name: "canon",
 	Impl: func(in Val) Val {
 		seq0 := in.At(0).Bytes()
 		seq := slices.Clone(seq0)
-		items := canonItems(seq, in.At(1).Int())
+		k := in.At(1).Int()
+		items := canonItems(seq, k)
 		if !bytes.Equal(seq, seq0) {
 			return L(I(3), S("seq modified"))
+		}
+		// items that were yielded must stay what they were while other iterations run
+		// (an item that points into a pooled buffer is overwritten by the next iteration)
+		var raw [][]byte
+		for kmer := range sequtil.CanonicalSubsequences(seq, k) {
+			raw = append(raw, kmer)
+			if len(raw) > len(seq)+5 {
+				break
+			}
+		}
+		other := rcRef(seq)
+		for i := range other {
+			if other[i] == 0 {
+				other = nil
+				break
+			}
+		}
+		if other != nil {
+			canonItems(other, k)
+			canonItems(append(slices.Clone(other), other...), k)
+		}
+		if len(raw) != len(items) {
+			return L(I(3), S("two iterations over the same sequence yield different numbers of items"))
+		}
+		for i := range raw {
+			if !bytes.Equal(raw[i], items[i]) {
+				return L(I(3), S("an item changed after it was yielded (it aliases a buffer reused by later iterations)"))
+			}
 		}
 		return vOk(BL(items))
 	},
@@ -343,7 +393,17 @@ var kFrames = register(&Kind{Name: "frames",
 		if !bytes.Equal(seq, seq0) {
 			return L(I(3), S("seq modified"))
 		}
-		return vOk(BL(r[:]))
+		// the three frames must be independent slices: appending to one (as a dst for
+		// Translate) must not change another
+		keep := [3][]byte{slices.Clone(r[0]), slices.Clone(r[1]), slices.Clone(r[2])}
+		_ = append(r[0], "XYZ"...)
+		_ = append(r[1], "XYZ"...)
+		for i := 0; i < 3; i++ {
+			if !bytes.Equal(r[i], keep[i]) {
+				return L(I(3), S("the frames share a buffer: appending to one frame changes another"))
+			}
+		}
+		return vOk(BL(keep[:]))
 	},
 	Oracle: func(in, out Val) string {
 		seq := in.Bytes()
@@ -370,8 +430,23 @@ var kFrames = register(&Kind{Name: "frames",
 
 var kAminoName = register(&Kind{Name: "aminoname",
 	Impl: func(in Val) Val {
-		c, n := sequtil.AminoName(byte(in.Int()))
-		return vOk(L(S(c), S(n)))
+		// twice: the answer (panic included) must not depend on earlier calls
+		call := func() (v Val) {
+			defer func() {
+				if recover() != nil {
+					v = vPanic
+				}
+			}()
+			c, n := sequtil.AminoName(byte(in.Int()))
+			return vOk(L(S(c), S(n)))
+		}
+		first := call()
+		for i := 0; i < 2; i++ {
+			if again := call(); again.String() != first.String() {
+				return L(I(3), S("AminoName answers differently when called again"))
+			}
+		}
+		return first
 	},
 	Oracle: func(in, out Val) string {
 		b := byte(in.Int())
@@ -437,6 +512,23 @@ func init() {
 			k := c.Choose(1, 2, 3, 4, 8, 21, 31, len(s), len(s)+1, len(s)+7)
 			c.Run(kCanon, L(B(s), I(k)), true, "canon/"+strat)
 		}
+		// dst prefixes containing zero bytes (a result scan that covers dst would see them)
+		for _, d := range [][]byte{{0}, {0, 0, 'A'}, {'A', 0}, {255, 0, 1}} {
+			c.Run(kRc, L(B(d), S("ACGTN")), true, "rc/dst-with-zero-byte")
+			c.Run(kRc, L(B(d), S("")), true, "rc/dst-with-zero-byte")
+		}
+		// every two-byte UTF-8 character, and a sample of three-byte ones: multi-byte
+		// characters are just invalid bytes here (a loop over runes instead of bytes
+		// would truncate the code point to a letter)
+		for r := 0x80; r <= 0x7ff; r++ {
+			c.Run(kRcStr, S(string(rune(r))), true, "rcstr/utf8-2byte")
+		}
+		for r := 0x800; r <= 0xffff; r += 0x11 {
+			if r < 0xd800 || r > 0xdfff {
+				c.Run(kRcStr, S("A"+string(rune(r))+"c"), true, "rcstr/utf8-3byte")
+				c.Run(kRc, L(B(nil), S(string(rune(r)))), true, "rc/utf8-3byte")
+			}
+		}
 		// hairpins: k-mers X + M + revcomp(X) agree with their own reverse complement
 		// on the first |X| bases, so the strand choice is decided late (or, for an
 		// implementation that compares only a prefix, wrongly)
@@ -494,6 +586,11 @@ func init() {
 			c.Run(kTo2bit, L(B(nil), B(s)), len(s) >= 1, "to2bit/exhaustive")
 		})
 		c.Exhaustive(fmt.Sprintf("all DNA strings over aAcCgGtT of length <= %d", maxLen))
+		// long inputs: past any internal block size (1024-byte blocks = 4096 bases, ...)
+		for _, ln := range []int{4095, 4096, 4097, 4100, 5000, 8192, 8193, 20000, 70001} {
+			c.Run(kTo2bit, L(B(c.dstPrefix()), B(c.RandBytes(ln, dna8))), true, "to2bit/long")
+			c.Run(kFrom2bit, L(B(c.dstPrefix()), B(c.RandBytes(ln/4+1, nil))), true, "from2bit/long")
+		}
 		n := c.Pick(300, 5000)
 		for i := 0; i < n; i++ {
 			s := c.RandBytes(c.Choose(1, 2, 3, 4, 5, 7, 8, 9, 63, 64, 65, 1000), dna8)
